@@ -154,6 +154,7 @@ func (h *NtfnsHandler) Start() error {
 }
 
 func (h *NtfnsHandler) Stop() {
+	simYield("stop.close")
 	close(h.quit)
 	h.quitWg.Wait()
 	h.walletMgr.CloseDB()
@@ -166,12 +167,21 @@ func handle(h *NtfnsHandler) {
 	logging.CPrint(logging.INFO, "NtfnsHandler started", logging.LogFormat{})
 
 	for {
+		simYield("handle.select")
+		if simPreferQuit() {
+			select {
+			case <-h.quit:
+				return
+			default:
+			}
+		}
 		select {
 		case <-h.quit:
 			logging.CPrint(logging.INFO, "NtfnsHandler stopped", logging.LogFormat{})
 			return
 
 		case <-h.sigSuspend:
+			simYield("handle.suspended")
 			<-h.sigResume
 
 		case block := <-h.queueBlock:
@@ -753,6 +763,7 @@ func worker(h *NtfnsHandler) {
 	defer Recover()
 	defer h.quitWg.Done()
 
+	simYield("worker.init")
 	mwdb.View(h.walletMgr.db, func(tx mwdb.ReadTransaction) error {
 		wss, err := h.walletMgr.syncStore.GetAllWalletStatus(tx)
 		if err != nil {
@@ -785,6 +796,14 @@ func worker(h *NtfnsHandler) {
 	})
 
 	for {
+		simYield("worker.select")
+		if simPreferQuit() {
+			select {
+			case <-h.quit:
+				return
+			default:
+			}
+		}
 		select {
 		case <-h.quit:
 			logging.CPrint(logging.INFO, "NtfnsHandler worker stopped")
@@ -1018,6 +1037,7 @@ func (h *NtfnsHandler) asyncRemove(walletId string) error {
 	}
 
 	for {
+		simYield("remove.round")
 		select {
 		case <-h.quit:
 			return ErrTaskAbort
@@ -1225,6 +1245,7 @@ func (h *NtfnsHandler) OnTransactionReceived(tx *wire.MsgTx) error {
 }
 
 func (h *NtfnsHandler) suspend(log bool, msg string, fields logging.LogFormat) {
+	simYield("worker.suspend")
 	h.sigSuspend <- struct{}{}
 	if log {
 		logging.VPrint(logging.INFO, msg, fields)
@@ -1232,6 +1253,7 @@ func (h *NtfnsHandler) suspend(log bool, msg string, fields logging.LogFormat) {
 }
 
 func (h *NtfnsHandler) resume(log bool, msg string, fields logging.LogFormat) {
+	simYield("worker.resume")
 	h.sigResume <- struct{}{}
 	if log {
 		logging.VPrint(logging.INFO, msg, fields)
